@@ -198,11 +198,11 @@ def main(P, tier, replay=None):
         ctx["tie1"] = tie1
         # search support: literals the current source adds to the pinned one become boundary values of the generators
         try:
-            from . import dictionary, fam_api, fam_rf, fam_adapters
+            from . import dictionary, fam_api, fam_rf, fam_adapters, fam_aadapters
             if not P.gen_scope:
                 build.gen_models()
             nv = dictionary.novel()
-            fam_api.NOVEL[:] = nv; fam_rf.NOVEL[:] = nv; fam_adapters.NOVEL[:] = nv
+            fam_api.NOVEL[:] = nv; fam_rf.NOVEL[:] = nv; fam_adapters.NOVEL[:] = nv; fam_aadapters.NOVEL[:] = nv
             ctx["novel_literals"] = nv
         except build.BuildError:
             ctx["novel_literals"] = []
